@@ -357,3 +357,5 @@ for _p in ("C04", "C01"):
     H(_p, "html/layout", "VxH_C04_ex_ch", reach=["laid-out"], bounds="a paragraph in a 10px body with one of 7 declarations using ex / ch (font-size, width, tab-size, hyphenate-limit-zone, margin); font configuration: VxAhem (x-height 0.8 em, '0' advance 1 em)", quick={"maxsteps": 100000000, "maxdepth": 2000})
 H("C08", "css/validation", "VxH_C08_important_comments", reach=["validated"], bounds="3 declarations x 5 separators (nothing, space, comment, mixed) before '!', after '!' and after 'important' x 3 spellings, parsed from source text with comments kept (as the style pipeline does)", quick={"shards": 4})
 H("C04", "html/tree", "VxH_C04_font_size_steps", mode="real", reach=["computed", "within-table"], bounds="parent font size a symbolic real in [1,100] px, child font-size smaller / larger")
+H("C09", "html/boxes", "VxH_C09_table_parts", reach=["built"], bounds="x-p > x-j > (x-k, x-i): x-j one of 7 parents (table, inline-table, block, inline, table-row, table-row-group, flex), x-k and x-i one of 9 table parts / inline / block", quick={"maxsteps": 80000000, "shards": 8})
+H("C10", "html/layout", "VxH_C10_box_sizing_height", mode="real", reach=["laid-out"], bounds="one empty block with symbolic vertical / horizontal paddings and borders, box-sizing in 3 values, one of height / min-height / max-height (under height: 300px) symbolic in [0,150]", quick={"maxsteps": 100000000, "shards": 4})
